@@ -421,7 +421,12 @@ def _stepper_to_hamiltonian(ctx, C, entry: FuncInfo, role_of: dict) -> None:
         (m, c), = mons.items()
         # the closure variable dt of the enclosing stepper method
         ndt = sum(1 for a in m if show(a) == "dt")
-        ok = abs(c - (-1j)) < 1e-12 and ndt == 1
+        rest = sorted(show(a).replace(" ", "") for a in m if show(a) != "dt")
+        xname = sub.params[0] if sub.params else "x"
+        # what is left is the generator applied to the argument: H·x (two atoms) or (H @ x) (one atom), nothing else
+        applied = (len(rest) == 2 and xname in rest and all(r.isidentifier() for r in rest)) or \
+                  (len(rest) == 1 and rest[0].startswith("(") and rest[0].endswith(f"@{xname})") and rest[0][1:].split("@")[0].isidentifier())
+        ok = abs(c - (-1j)) < 1e-12 and ndt == 1 and applied
     ctx.ob("UNITS-sv", f"{C.name} exponent", sub.loc(), ok,
            "the generator is −i·dt·(H x) with the stepper's dt" if ok else
            f"the generator handed to krylov_exp is {detail}, not −i·dt·(H x)", entry=sub.parent.qualname)
